@@ -317,6 +317,21 @@ func runC20(c *ctx) {
 	c20Case(c, []sfieldSpec{goodID, {name: "F0", typ: str, hasJSON: true, jsonTag: "a", hasAPI: true, apiTag: "attr"}, {name: "F1", typ: reflect.TypeOf(int(0)), hasJSON: true, jsonTag: "a", hasAPI: true, apiTag: "attr"}}, false, "duplicate-json")
 	c20Case(c, []sfieldSpec{goodID, {name: "F0", typ: reflect.TypeOf(int(0)), hasJSON: true, jsonTag: "a"}, {name: "F1", typ: str, hasJSON: true, jsonTag: "a", hasAPI: true, apiTag: "attr"}}, false, "duplicate-json-untagged-first")
 	c20Case(c, []sfieldSpec{goodID, {name: "F0", typ: str, hasJSON: true, jsonTag: "a", hasAPI: true, apiTag: "attr"}, {name: "F1", typ: reflect.TypeOf(int(0)), hasJSON: true, jsonTag: "a"}}, false, "duplicate-json-untagged-last")
+	// pairs of tagged fields: what one field declares must not leak into the next
+	for _, a := range c20APITags {
+		for _, b := range c20APITags {
+			for _, ta := range []reflect.Type{str, reflect.TypeOf([]string{})} {
+				fa := sfieldSpec{name: "F0", typ: ta, hasJSON: true, jsonTag: "a", hasAPI: true, apiTag: a}
+				fb := sfieldSpec{name: "F1", typ: str, hasJSON: true, jsonTag: "b", hasAPI: true, apiTag: b}
+				c20Case(c, []sfieldSpec{goodID, fa, fb}, false, "field-pair")
+			}
+		}
+	}
+	// the ID field anywhere but first, next to fields of other types
+	for _, t := range []reflect.Type{reflect.TypeOf(int(0)), str, reflect.TypeOf([]string{})} {
+		c20Case(c, []sfieldSpec{{name: "F0", typ: t, hasJSON: true, jsonTag: "a", hasAPI: true, apiTag: "attr"}, goodID}, false, "id-not-first")
+		c20Case(c, []sfieldSpec{{name: "F0", typ: t, hasJSON: true, jsonTag: "a"}, goodID, {name: "F1", typ: str, hasJSON: true, jsonTag: "b", hasAPI: true, apiTag: "attr"}}, false, "id-not-first")
+	}
 	n := 400
 	if c.thorough() {
 		n = 8000
